@@ -7,7 +7,7 @@ R=/tmp/vh-exec-mut-root
 for m in "$@"; do
   python3 $D/mutants.py reset >/dev/null
   [ "$m" = none ] || python3 $D/mutants.py apply $m >/dev/null
-  (cd /tmp/vh-exec-wasm-mut && CARGO_TARGET_DIR=/verif/harness/target-vh-exec-wasm-mut CARGO_NET_OFFLINE=true CARGO_BUILD_JOBS=8 cargo build --release --offline -p vh-exec-wasm > $R/buildw-$m.log 2>&1) || { echo "MUTANT $m: BUILD FAILED" >> $R/matrix-wasm.log; continue; }
+  (cd /tmp/vh-exec-wasm-mut && CARGO_TARGET_DIR=/verif/harness/target-vh-exec-wasm-mut CARGO_NET_OFFLINE=true CARGO_BUILD_JOBS=8 VERIF_REPO=/tmp/wt-vh-exec cargo build --release --offline -p vh-exec-wasm > $R/buildw-$m.log 2>&1) || { echo "MUTANT $m: BUILD FAILED" >> $R/matrix-wasm.log; continue; }
   rm -rf $R/replays
   out=$(cd $R && VERIF_ROOT=$R /verif/harness/target-vh-exec-wasm-mut/release/vh-exec-wasm C07 2>&1); rc=$?
   sigs=$(echo "$out" | grep "violation \[" | sed -E 's/^ *violation \[[^]]*\] ([^ ]*): .*/\1/' | sort -u | tr '\n' ' ')
